@@ -213,6 +213,24 @@ def core_body(facts):
     return cands[0] if len(cands) == 1 else None
 
 
+def rule_size_writers(facts, rid="C08.R2b"):
+    """The size in effect is decided once: by read_header / the caller's parameters, stored by the constructors, replaced
+    only through set_unpacked_size (LZMA2, raw reset).  Any other write (or mutable loan) of the two fields changes which
+    size is in effect behind the option's back."""
+    from rules.C07 import check_side
+    r = report.RuleResult(rid, "the size in effect is written only by the header parser, the constructors and set_unpacked_size")
+    for adt, only in (("decode::lzma::LzmaParams", ["LzmaParams::read_header", "LzmaParams::new"]),
+                      ("decode::lzma::DecoderState", ["DecoderState::new", "DecoderState::set_unpacked_size"])):
+        r.sites += 1
+        sc = {"kind": "writers", "adt": adt, "field": "unpacked_size", "only_in": only}
+        if check_side(facts, sc):
+            r.ok("who-writes", {"field": "%s.unpacked_size" % adt.split("::")[-1], "writers": only})
+        else:
+            r.bad("size-writers|%s" % adt.split("::")[-1], "`%s.unpacked_size` is written (or lent mutably) outside %s: the size in effect can "
+                  "change after it was decided" % (adt.split("::")[-1], " / ".join(only)), adt)
+    return r
+
+
 def rule_final(facts):
     r = report.RuleResult("C08.R4", "with a size in effect success implies produced == size (Finish mode)")
     b = core_body(facts)
@@ -448,7 +466,7 @@ def run(ctx, t0):
     from rules import C16
     r3 = C16.rule_completed(facts)
     r3.rule = "C08.R3"
-    rules = [r1, r2, r3, rule_final(facts), rule_marker(facts), rule_lengths(facts)]
+    rules = [r1, r2, r3, rule_size_writers(facts), rule_final(facts), rule_marker(facts), rule_lengths(facts)]
     expl = ("Static: byte widths of the resolved read callees per option arm, provenance of the stored size per arm, "
             "dominance/path checks of the size test, the final equality and the end-marker acceptance, and the "
             "provenance of the copy length handed to the window. Declined: that the numbers produced equal the "
